@@ -192,8 +192,21 @@ def _insert_contract(fn_text: str, contract: str, binder: str = "r") -> str:
     return sig.rstrip() + "\n" + contract.rstrip() + "\n" + body
 
 
-def _insert_loop_invariants(fn_text: str, invs: list) -> str:
-    """Insert `invs[k]` between the k-th loop header and its body brace."""
+def _loop_forms(fn_text: str) -> str:
+    """The loops of a function as written, in order: `loop`, `while`, `while let`, `for`."""
+    masked = rsrc.mask(fn_text)
+    return ",".join(re.sub(r"\s+", " ", m.group(0)) for m in re.finditer(r"\b(loop\b|while\s+let\b|while\b|for\b(?=\s+[\w(&_]))", masked)
+                    if m.group(0) != "for" or masked[:m.start()].rstrip()[-1:] in ("", "{", "}", ";", ":"))   # not `impl X for Y`
+
+
+def _insert_loop_invariants(fn_text: str, invs: list, loopform: str = None) -> str:
+    """Insert `invs[k]` between the k-th loop header and its body brace.  `loopform` (a regular expression over
+    _loop_forms) names the loop spellings the invariants were written for: a function whose loops were
+    restructured is not decided by this unit (exit 2) - an invariant that no longer fits is not a violation."""
+    if loopform is not None:
+        actual = _loop_forms(fn_text)
+        if not re.fullmatch(loopform, actual):
+            raise Unsupported(f"loops restructured: the invariants of this unit were written for `{loopform}`, the function now has `{actual}`")
     out, pos = "", 0
     for inv in invs:
         masked = rsrc.mask(fn_text)
@@ -366,7 +379,7 @@ def assemble(repo_dir: str, unit: dict, out_path: str):
             # I3: loop invariants (annotation in place): `loopinv=<label>[,<label>..]`, the k-th label
             # is inserted after the k-th `loop` / `while ..` header of the function body
             if "loopinv" in kv:
-                text2 = _insert_loop_invariants(text2, [contracts[l] for l in kv["loopinv"].split(",")])
+                text2 = _insert_loop_invariants(text2, [contracts[l] for l in kv["loopinv"].split(",")], kv.get("loopform"))
             if "fnattrs" in kv:
                 text2 = kv["fnattrs"] + "\n" + text2
             start_line = len(out) + 1
